@@ -64,6 +64,7 @@ def conv_case(draw, with_units=None):
         in_prefix=draw(st.sampled_from([None, None, "", "milli", "micro", "nano"])),
         # dtype of the spectrum array: the result is a float64 computation whatever the storage type of the input
         dtype=draw(st.sampled_from([None, None, None, "float32", "int64"])),
+        wl_int=draw(st.booleans()),
     )
 
 
@@ -124,6 +125,8 @@ def _build_args(case, dreye, spec=None):
             factor = 1e-3 if su == "milli-si" else 1.0
         spec_arg = spec_arg * ureg(unit)
     wl_arg = wl if wl.ndim else float(wl)
+    if case.get("wl_int") and np.all(wl == np.round(wl)):
+        wl_arg = wl.astype(np.int64) if wl.ndim else int(wl)            # np.arange(300, 700, 50): integer-typed wavelengths
     wu = case["wl_units"]
     if wu == "nm":
         wl_arg = wl_arg * ureg("nm")
